@@ -61,7 +61,19 @@ RULE = ("flows through the real authorization+token endpoints of 9 providers (co
         "+, space, non-ASCII, an injected '&code_challenge_method=plain'); histories: form posted twice (both codes), page "
         "answered 2 h later, prompt=login and max_age exceeded for a browser whose session belongs to ANOTHER challenge, two "
         "pending pages answered in reverse order, cookie SSO without a page; the library's RP pair through the page; random "
-        "interactive flows.  Observed: the pair in the page's query, the pair in the grant of the code, the outcome.")
+        "interactive flows.  Observed: the pair in the page's query, the pair in the grant of the code, the outcome.  "
+        "(8) EXTENSION PARAMETERS (whether the two post-parse hooks RUN): next to the genuine parameters the authorization "
+        "request (on the front channel / inside the signed object / in the pushed body / both) and the token request carry "
+        "members the endpoint machinery itself gives a meaning to somewhere - error, error_description, error_uri, return_uri, "
+        "response_args, authenticated, client_authn_method, __verified_*, http_response, fragment_enc, response_placement, "
+        "redirect_location, cookie, session_id, names of the hooks' keyword arguments and of the add-on's configuration keys, a "
+        "code_verifier next to an authorization request, authorization-request members next to a token request, members given "
+        "twice (list values), unknown names - every name alone on each leg x {no challenge, method only, unknown method, no "
+        "method, valid pair} x {no, one-character-off, right verifier, challenge under 'plain'} x all 5 transports x 9 providers "
+        "(essential on/off) and through the log-in page (7 histories), plus random multi-member flows.  Ground truth: the "
+        "hashlib verdict on the PKCE parameters alone, and the TWIN flow without the extension parameters (same outcome, same "
+        "recorded pair); model: flow_x / authz_leg_x / token_hook / post_parse of Model/Pkce.v (the request is a list of "
+        "members, the hooks read theirs by name; C15_extras_irrelevant).")
 ASSUMPTIONS = [
     "HB bits v = b64url_nopad(sha<bits>(ascii v)) is an arbitrary function in C15_bound/_essential/_no_downgrade; "
     "C15_near_miss_refused assumes it injective (collision-free hash), C15_rp_op_agree assumes its output non-empty",
@@ -74,6 +86,11 @@ ASSUMPTIONS = [
     "interactive flows: the application that answers the log-in page is the one of example/flask_op/views.py::verify "
     "(request_cls().from_urlencoded(query of the page) -> create_session -> authz_part2); whether the page's token is "
     "authentic and the user's password right is not C15's subject; urllib's quoting is Lib/Qs.v (validated by C10)",
+    "extension parameters are not themselves named like the PKCE parameters of their leg (code_challenge / "
+    "code_challenge_method; code_verifier / code_challenge_method): those would be other PKCE parameters, covered by (1)-(7). "
+    "A push that fails as a whole because of a member of the pushed body (unchanged library: a plain body with "
+    "`__verified_request`, AttributeError in Authorization._post_parse_request, nothing issued) is counted "
+    "(extras:push-failed-for-another-reason), not modelled: whether a push is accepted is C16's subject",
 ]
 
 PKCE_FN = "idpyoidc.server.oauth2.add_on.pkce.add_support"
@@ -196,7 +213,7 @@ class Prov:
             pr = self.az.parse_request(dict(req))
         except Exception as e:
             return ("AzRaised", type(e).__name__)
-        if "error" in pr:
+        if "error" in pr and self.is_error_msg(pr):
             d = pr.get("error_description", "")
             if d.startswith("Missing required code_challenge"):
                 return ("AzRefused", 1)
@@ -220,6 +237,15 @@ class Prov:
         """process_request answered with a page instead of a code (providers with silent authentication never do)"""
         return ("AzRefused", 0)
 
+    def is_error_msg(self, msg):
+        """msg has a member `error`: is it an error message?  Always, unless this flow itself SENT extension parameters
+        (self.xflag; one of them may be called `error`): then the class of the message tells (the endpoints answer
+        with ResponseMessage subclasses, the request classes are none)."""
+        if not getattr(self, "xflag", False):
+            return True
+        from idpyoidc.message.oauth2 import ResponseMessage
+        return isinstance(msg, ResponseMessage)
+
     # ---- transports of the authorization request (request object by value / by reference, PAR)
     BASE = {"client_id": "client_1", "redirect_uri": "https://client_1.example.com/cb", "scope": "openid",
             "response_type": "code"}
@@ -237,8 +263,9 @@ class Prov:
             return _Resp(200, self.docs[url])
         return _Resp(404, "")
 
-    def request_object(self, pair, state, alg):
+    def request_object(self, pair, state, alg, extra=None):
         claims = with_pair(dict(self.BASE, state=state, iss="client_1", aud=self.server.context.issuer), pair)
+        claims.update(extra or {})
         return sign_object(claims, alg)
 
     def deliver(self, d, state="ST"):
@@ -252,20 +279,24 @@ class Prov:
         t = d["t"]
         alg = d.get("alg", "RS256")
         base = dict(self.BASE, state=state)
+        # extension parameters next to the genuine ones: x_front on the front channel (for front: the request itself),
+        # x_prot inside the protected part (the signed object; for a plain push the pushed body)
+        xf, xp = dict(d.get("x_front") or {}), dict(d.get("x_prot") or {})
+        self.xnames = tuple(xf) + tuple(k for k in xp if k not in xf)
         if t == "front":
-            return self.authz_req(with_pair(base, d["front"]))
+            return self.authz_req(dict(with_pair(base, d["front"]), **xf))
         if t == "value":
-            return self.authz_req(with_pair(dict(base, request=self.request_object(d["obj"], state, alg)), d["front"]))
+            return self.authz_req(dict(with_pair(dict(base, request=self.request_object(d["obj"], state, alg, xp)), d["front"]), **xf))
         if t == "uri":
             u = "https://client_1.example.com/ro/%d" % self.n
             self.docs.clear()
-            self.docs[u] = self.request_object(d["obj"], state, alg)
-            return self.authz_req(with_pair(dict(base, request_uri=u), d["front"]))
+            self.docs[u] = self.request_object(d["obj"], state, alg, xp)
+            return self.authz_req(dict(with_pair(dict(base, request_uri=u), d["front"]), **xf))
         # pushed: over the authenticated back channel, then redeemed through the issued request_uri
         if t == "par":
-            body = with_pair(base, d["body"])
+            body = dict(with_pair(base, d["body"]), **xp)
         else:
-            body = with_pair(dict(base, request=self.request_object(d["obj"], state, alg)), d["body"])
+            body = with_pair(dict(base, request=self.request_object(d["obj"], state, alg, xp)), d["body"])
         secret = self.server.context.cdb["client_1"]["client_secret"]
         if d.get("push_auth") == "post":
             body["client_secret"] = secret
@@ -274,7 +305,7 @@ class Prov:
             hi = {"headers": {"authorization": "Basic " + base64.b64encode(("client_1:%s" % secret).encode()).decode()}}
         try:
             pr = self.par.parse_request(body, http_info=hi)
-            if "error" in pr:
+            if "error" in pr and self.is_error_msg(pr):
                 return ("AzRefused", 97)
             urn = self.par.process_request(pr)["http_response"]["request_uri"]
         except Exception:
@@ -283,7 +314,7 @@ class Prov:
             red = {"client_id": "client_1", "response_type": "code", "request_uri": urn}
         else:
             red = dict(base, state="redeem-" + state, request_uri=urn)
-        return self.authz_req(with_pair(red, d["front"]))
+        return self.authz_req(dict(with_pair(red, d["front"]), **xf))
 
     def recorded(self, code):
         """(code_challenge or None, code_challenge_method or None) of the authorization request stored in the grant of
@@ -317,7 +348,7 @@ class Prov:
             return ("TkRaised", "KeyError")
         except Exception as e:
             return ("TkRaised", "TypeError")
-        if "error" in tp:
+        if "error" in tp and self.is_error_msg(tp):
             d = tp.get("error_description", "")
             if d.startswith("Missing code_verifier"):
                 return ("TkRefused", 3)
@@ -491,6 +522,8 @@ def record_dflow(ctx, prov, ce, d, cv, tccm, kind, dcases, out, obs, note=None, 
         rec["note"] = note
     if more:
         rec.update(more)
+    if getattr(prov, "xflag", False):
+        rec["token_extras"] = dict(getattr(prov, "xtx", None) or {})
     eff = ref_request_pair(d)
     prot = ref_protected(d)
     essential = ce if ce is not None else prov.essential
@@ -636,7 +669,7 @@ class IProv(Prov):
 
     def render_others(self, parsed):
         res = []
-        for k in OTHERS:
+        for k in OTHERS + tuple(x for x in getattr(self, "xnames", ()) if x not in OTHERS):
             if k not in parsed:
                 continue
             v = parsed[k]
@@ -784,6 +817,8 @@ def record_iflow(ctx, prov, ce, d, cv, tccm, kind, icases, out, obs, h, inter, n
            "outcome": list(out)}
     if note:
         rec["note"] = note
+    if getattr(prov, "xflag", False):
+        rec["token_extras"] = dict(getattr(prov, "xtx", None) or {})
     eff = ref_request_pair(d)
     prot = ref_protected(d)
     essential = ce if ce is not None else prov.essential
@@ -1365,7 +1400,7 @@ ISPECS = [(None, True, True, "jinja"), (None, False, True, "form"), (["S256"], T
           (None, True, False, "jinja"), (["plain", "S256"], False, False, "form")]
 
 
-def interactive_section(ctx, rng, icases, dcases, specs=None):
+def interactive_section(ctx, rng, icases, dcases, specs=None, xicases=None):
     """providers with a log-in page, under a controlled clock (the page answered late, max_age)"""
     import srv
     import warnings
@@ -1386,9 +1421,315 @@ def interactive_section(ctx, rng, icases, dcases, specs=None):
         interactive_histories(ctx, iprovs, rng, icases, dcases)
         rp_interactive_cases(ctx, iprovs, rng, icases, dcases)
         interactive_random(ctx, iprovs, rng, icases, dcases, 150 if ctx.quick else 8000)
+        if xicases is not None:
+            extras_interactive(ctx, iprovs, rng, xicases, dcases, 60 if ctx.quick else 4000)
     finally:
         if specs is None:
             clock.uninstall()
+
+
+# ---------------------------------------------------------------- extension parameters next to the genuine ones
+# The PKCE verdict of a request is a function of its PKCE parameters and the recorded pair only.  The add-on is two
+# post-parse hooks; whether they RUN must not depend on anything else the request carries.  Names: members the endpoint
+# machinery itself gives a meaning to somewhere (error messages, results of process_request, marks parse_request /
+# client authentication / request-object verification leave on a request, keyword arguments of the hooks, keys of the
+# add-on's configuration and results), and plain unknown ones.
+XVALUES = {
+    "error": ["x", "none", "invalid_request", "access_denied"],
+    "error_description": ["Missing required code_challenge", "PKCE check failed", "x y", "Missing code_verifier"],
+    "error_uri": ["https://client_1.example.com/err"],
+    "return_uri": ["https://client_1.example.com/cb", "https://elsewhere.example.org/cb"],
+    "response_args": ["{}", "{\"code\": \"x\"}"],
+    "authenticated": ["true", "True", "1"],
+    "client_authn_method": ["none", "public", "client_secret_post"],
+    "__verified_request": ["1", "x"],
+    "__verified_client_assertion": ["x"],
+    "__verified_id_token_hint": ["x"],
+    "http_response": ["x"],
+    "fragment_enc": ["true"],
+    "response_placement": ["body", "url"],
+    "redirect_location": ["https://elsewhere.example.org/"],
+    "cookie": ["a=b"],
+    "session_id": ["diana;;client_1;;x"],
+    "essential": ["false", "0"],
+    "pkce_essential": ["false", "0"],
+    "code_challenge_methods": ["plain"],
+    "auth_info": ["x"],
+    "http_info": ["x"],
+    "context": ["x"],
+    "verify": ["false"],
+    "grant": ["x"],
+    "token": ["x"],
+    "code_challenges": ["x"],
+    "code_verifiers": ["x"],
+    "Error": ["x"],
+    "zz_ext": ["a b&c=d", "1"],
+}
+XNAMES = sorted(XVALUES)
+# only where they mean nothing to the endpoint itself: a verifier next to an authorization request
+X_AZ_ONLY = {"code_verifier": ["not-a-verifier-of-anything-0123456789-abcdefghij"]}
+# a token request: members of authorization / error messages
+X_TK_ONLY = {"code_challenge": ["zzz"], "state": ["ST"], "request": ["x"], "request_uri": ["urn:uuid:none"],
+             "response_type": ["code"], "nonce": ["n"], "prompt": ["none"]}
+
+
+def xpick(rng, names, pool=None):
+    pool = pool or XVALUES
+    return {k: rng.choice(pool[k]) for k in names}
+
+
+def coq_rparams(pairs):
+    rows = []
+    for k, v in pairs:
+        val = "(PvL %s)" % coq_list([coq_str(x) for x in v], "pystr") if isinstance(v, list) else "(PvS %s)" % coq_str(v)
+        rows.append("(%s, %s)" % (coq_str(k), val))
+    return coq_list(rows, "(pystr * pval)")
+
+
+def x_members(d):
+    """the extension parameters the authorization request of d carried, front channel first"""
+    xf, xp = d.get("x_front") or {}, d.get("x_prot") or {}
+    return list(xf.items()) + [(k, v) for k, v in xp.items() if k not in xf]
+
+
+def strip_x(d):
+    return {k: v for k, v in d.items() if k not in ("x_front", "x_prot")}
+
+
+def run_xflow(ctx, prov, ce, d, tx, cv, tccm, kind, xcases, note=None):
+    """One flow whose authorization request carries the extension parameters of d (x_front / x_prot) and whose token
+    request carries tx, and its TWIN: the same flow without them.  Ground truth for the flow: the twin's verdict, and
+    (oracle / oracle_transport) the verdict recomputed from the PKCE parameters alone with hashlib."""
+    prov.set_client_flag(ce)
+    prov.xflag = True
+    try:
+        a = prov.deliver(d, state="XT%d" % prov.n)
+        obs = None
+        if a[0] == "code":
+            obs = prov.recorded(a[1])
+            out = prov.token(a[1], cv, tccm, extra=tx)
+        else:
+            out = a
+    finally:
+        prov.xflag = False
+    a0 = prov.deliver(strip_x(d), state="XT%d" % prov.n)
+    obs0 = None
+    if a0[0] == "code":
+        obs0 = prov.recorded(a0[1])
+        out0 = prov.token(a0[1], cv, tccm)
+    else:
+        out0 = a0
+    if tuple(out) == ("AzRefused", 97) and tuple(out0) != ("AzRefused", 97):
+        # the PUSH itself failed because of an extension parameter in the pushed body (unchanged library: a plain body with
+        # `__verified_request` makes Authorization._post_parse_request raise AttributeError): no authorization request ever
+        # reached the PKCE hook, nothing was issued.  Whether a push is accepted is not C15's subject; counted, not modelled.
+        ctx.case_seen({"kind": kind, "delivery": d, "outcome": list(out)}, nontrivial=False)
+        ctx.count("extras:push-failed-for-another-reason")
+        for k, _ in x_members(d):
+            ctx.count("extras:push-failed:" + k)
+        return out
+    return record_xflow(ctx, prov, ce, d, tx, cv, tccm, kind, xcases, out, obs, out0, obs0, note)
+
+
+def record_xflow(ctx, prov, ce, d, tx, cv, tccm, kind, xcases, out, obs, out0, obs0, note=None):
+    rec = {"kind": kind, "provider": prov.describe(), "pkce_essential": ce, "delivery": d, "token_extras": tx,
+           "code_verifier": cv, "token_code_challenge_method": tccm,
+           "recorded_in_grant": list(obs) if obs is not None else None, "outcome": list(out),
+           "twin_without_extras": {"outcome": list(out0), "recorded_in_grant": list(obs0) if obs0 is not None else None}}
+    if note:
+        rec["note"] = note
+    eff = ref_request_pair(d)
+    prot = ref_protected(d)
+    essential = ce if ce is not None else prov.essential
+    ctx.case_seen(rec, nontrivial=True)
+    ctx.count("kind:" + kind)
+    ctx.count("extras-transport:" + d["t"])
+    for k, _ in x_members(d):
+        ctx.count("extras-az:" + k)
+    for k in tx:
+        ctx.count("extras-tk:" + k)
+    ctx.count("extras-out:" + out[0] + (str(out[1]) if len(out) > 1 else ""))
+    # the property text on the PKCE parameters alone (hashlib), exactly as for a flow without extension parameters
+    oracle(ctx, prov, dict(rec, code_challenge=eff[0], code_challenge_method=eff[1]), out, eff[0] is not None, essential)
+    oracle_transport(ctx, prov, rec, d, prot, eff, cv, out, obs)
+    # ... and the rule itself: forall extras, flow (rq + extras) = flow rq
+    if tuple(out) != tuple(out0):
+        ctx.violation("extras-change-verdict",
+                      "the flow ends in %r, the same flow without the extension parameters %r (authorization request) / %r "
+                      "(token request) in %r: the PKCE verdict depends on parameters that are none of its business"
+                      % (out, dict(x_members(d)), tx, out0), rec)
+    norm_obs = lambda o: None if o is None else (nz(o[0]), o[1])
+    if norm_obs(obs) != norm_obs(obs0):
+        ctx.violation("extras-change-recorded-pair",
+                      "the grant of the code records %r, for the same request without the extension parameters %r: %r"
+                      % (obs, dict(x_members(d)), obs0), rec)
+    if obs is not None and obs[1] is not None:
+        obs_t = "(Some (%s, %s))" % (s_opt(nz(obs[0])), coq_str(obs[1]))
+    else:
+        obs_t = "(@None (option pystr * pystr))"
+    term = "(%s, %s, %s, %s, %s, %s, %s, %s, %s, %s, %s)" % (
+        coq_list([coq_str(m) for m in prov.methods], "pystr"), coq_bool(prov.essential), b_opt(ce),
+        coq_delivery(d), coq_rparams(x_members(d)), coq_rparams(list(tx.items())), s_opt(cv), s_opt(tccm),
+        hb_table([cv]), coq_outcome(out), obs_t)
+    xcases.append((term, rec))
+    return out
+
+
+def x_delivery(rng, prov, t, prot, front, xs, where):
+    d = {"t": "front", "front": list(prot)} if t == "front" else mk_delivery(rng, prov, t, prot, front)
+    if t == "front" or where in ("front", "both"):
+        d["x_front"] = dict(xs)
+    if t != "front" and where in ("prot", "both"):
+        d["x_prot"] = dict(xs)
+    return d
+
+
+def x_situations(rng, prov):
+    """(name, protected pair, [(verifier, token-request method)]) - both legs, each with its three PKCE verdicts"""
+    m = rng.choice(prov.methods)
+    vA = rstr(rng, rng.choice([43, 64, 128]))
+    A = ref_tr(m, vA)
+    return [("no-challenge", (None, None), [(None, None), (vA, None)]),
+            ("method-only", (None, m), [(None, None)]),
+            ("unknown-method", (A, "S1"), [(vA, None)]),
+            ("no-method", (vA, None), [(vA, None), (None, None)]),
+            ("pair", (A, m), [(None, None), (near_miss1(rng, vA), None), (vA, None), (A, "plain")])]
+
+
+def extras_matrix(ctx, provs, rng, xcases):
+    """every name alone, on each leg, in every PKCE situation; the names rotate over providers x transports so that
+    every (provider, transport, situation, verifier) cell is visited with some name and every name with every situation"""
+    N = (None, None)
+    k = 0
+    for prov in provs:
+        for t in ("front",) + TRANSPORTS:
+            for sname, prot, toks in x_situations(rng, prov):
+                for cv, tccm in toks:
+                    for where in (("front",) if t == "front" else ("front", "prot")):
+                        k += 1
+                        name = XNAMES[k % len(XNAMES)]
+                        xs = xpick(rng, [name])
+                        leg = ("az", "tk", "both")[k % 3]
+                        d = x_delivery(rng, prov, t, prot, N, xs if leg != "tk" else {}, where)
+                        run_xflow(ctx, prov, rng.choice([None, None, True, False]), d, xs if leg != "az" else {}, cv, tccm,
+                                  "extras:%s:%s" % (sname, leg), xcases)
+    # every name, alone, against the refusals that matter most (essential provider, front channel and one transport)
+    ess = [p for p in provs if p.essential]
+    for i, name in enumerate(XNAMES + sorted(X_AZ_ONLY) + sorted(X_TK_ONLY)):
+        prov = ess[i % len(ess)]
+        pool = XVALUES if name in XVALUES else X_AZ_ONLY if name in X_AZ_ONLY else X_TK_ONLY
+        m = rng.choice(prov.methods)
+        vA = rstr(rng, 43)
+        A = ref_tr(m, vA)
+        for val in pool[name]:
+            xs = {name: val}
+            for t in ("front", TRANSPORTS[i % len(TRANSPORTS)]):
+                if name not in X_TK_ONLY:
+                    for where in ("front", "prot"):
+                        run_xflow(ctx, prov, None, x_delivery(rng, prov, t, N, N, xs, where), {}, None, None,
+                                  "extras-each:no-challenge", xcases)
+                        run_xflow(ctx, prov, None, x_delivery(rng, prov, t, (A, "S1"), N, xs, where), {}, vA, None,
+                                  "extras-each:unknown-method", xcases)
+                if name not in X_AZ_ONLY:
+                    d = x_delivery(rng, prov, t, (A, m), N, {}, "front")
+                    for cv in (None, near_miss1(rng, vA), vA):
+                        run_xflow(ctx, prov, None, d, xs, cv, None, "extras-each:token", xcases)
+    # list-valued members (a parameter given twice on the wire) of the token request
+    for prov in provs[:3]:
+        m = rng.choice(prov.methods)
+        vA = rstr(rng, 43)
+        for name in ("error", "zz_ext", "error_description"):
+            d = {"t": "front", "front": [ref_tr(m, vA), m]}
+            for cv in (None, vA + "x", vA):
+                run_xflow(ctx, prov, None, d, {name: ["x", "y"]}, cv, None, "extras:twice", xcases)
+
+
+def extras_random(ctx, provs, rng, xcases, n):
+    pool_m = ALL + ["S1", ""]
+    for _ in range(n):
+        prov = rng.choice(provs)
+        t = rng.choice(TRANSPORTS + ("front", "front"))
+        vs = [rstr(rng, rng.choice([43, 44, 64])) for _ in range(2)]
+
+        def pair(i):
+            m = rng.choice(pool_m) if rng.random() < 0.3 else rng.choice(prov.methods)
+            c = ref_tr(m, vs[i]) if m in ALL else vs[i]
+            return (rng.choice([c, c, c, None, "", vs[i]]), rng.choice([m, m, m, None, rng.choice(pool_m)]))
+        prot, front = pair(0), rng.choice([pair(1), (None, None), (None, None)])
+        ax = xpick(rng, rng.sample(XNAMES, rng.choice([0, 1, 1, 2, 4])))
+        tx = xpick(rng, rng.sample(XNAMES, rng.choice([0, 1, 1, 2, 4])))
+        if rng.random() < 0.2:
+            ax.update(xpick(rng, ["code_verifier"], X_AZ_ONLY))
+        if rng.random() < 0.2:
+            tx.update(xpick(rng, rng.sample(sorted(X_TK_ONLY), 2), X_TK_ONLY))
+        if not ax and not tx:
+            ax = xpick(rng, ["error"])
+        d = x_delivery(rng, prov, t, prot, front, ax, rng.choice(["front", "prot", "both"]))
+        cv = rng.choice([vs[0], vs[0], vs[0], vs[1], None, "", prot[0]])
+        run_xflow(ctx, prov, rng.choice([None, None, True, False]), d, tx, cv, rng.choice([None, None, "plain"]),
+                  "extras-random", xcases)
+
+
+# a plain pushed body with this member makes the PUSH fail on the unchanged library (see run_xflow); run_xflow tells such a
+# flow apart by its twin, the interactive flows (no twin) do not push it
+PUSH_BREAKERS = ("__verified_request",)
+
+
+def run_xiflow(ctx, prov, ce, d, tx, how, cv, tccm, kind, xicases, dcases, note=None):
+    """an interactive flow with extension parameters: those of the authorization request travel through the page's query
+    (they are rendered among the `others` of the model case), tx are added to the token request"""
+    if d["t"] == "par" and d.get("x_prot"):
+        d = dict(d, x_prot={k: v for k, v in d["x_prot"].items() if k not in PUSH_BREAKERS})
+    secret = prov.server.context.cdb["client_1"]["client_secret"]
+    treq = {"grant_type": "authorization_code", "redirect_uri": "https://client_1.example.com/cb",
+            "client_id": "client_1", "client_secret": secret}
+    if cv is not None:
+        treq["code_verifier"] = cv
+    if tccm is not None:
+        treq["code_challenge_method"] = tccm
+    treq.update(tx)
+    ic, dc = [], []
+    prov.xflag, prov.xtx = True, tx
+    try:
+        out = run_iflow(ctx, prov, ce, d, how, cv, tccm, kind, ic, dc, note=note, token_req=treq)
+    finally:
+        prov.xflag, prov.xtx = False, None
+    for term, rec in ic:
+        for k, _ in x_members(d):
+            ctx.count("extras-interactive-az:" + k)
+        for k in tx:
+            ctx.count("extras-interactive-tk:" + k)
+        xicases.append(("(%s, %s)" % (coq_rparams(list(tx.items())), term), rec))
+    for term, rec in dc:
+        dcases.append((term, rec))
+    return out
+
+
+def extras_interactive(ctx, iprovs, rng, xicases, dcases, n):
+    N = (None, None)
+    k = 0
+    for prov in iprovs:
+        for t in ("front", rng.choice(TRANSPORTS)):
+            for sname, prot, toks in x_situations(rng, prov):
+                for cv, tccm in toks:
+                    k += 1
+                    names = [XNAMES[k % len(XNAMES)], XNAMES[(7 * k + 3) % len(XNAMES)]]
+                    xs = xpick(rng, names)
+                    d = x_delivery(rng, prov, t, prot, N, xs, ("front", "prot", "both")[k % 3])
+                    run_xiflow(ctx, prov, rng.choice([None, None, True, False]), d, xpick(rng, names[:1 + k % 2]),
+                               HOWS[k % len(HOWS)], cv, tccm, "extras-interactive:" + sname, xicases, dcases)
+    for _ in range(n):
+        prov = rng.choice(iprovs)
+        t = rng.choice(TRANSPORTS + ("front", "front"))
+        m = rng.choice(prov.methods + ["S1"])
+        v = rstr(rng, 43)
+        c = ref_tr(m, v) if m in ALL else v
+        prot = (rng.choice([c, c, None, v]), rng.choice([m, m, None]))
+        d = x_delivery(rng, prov, t, prot, N, xpick(rng, rng.sample(XNAMES, rng.choice([1, 2, 3]))),
+                       rng.choice(["front", "prot", "both"]))
+        run_xiflow(ctx, prov, rng.choice([None, None, True, False]), d, xpick(rng, rng.sample(XNAMES, rng.choice([0, 1, 2]))),
+                   rng.choice(HOWS + ("sso",)), rng.choice([v, v, None, v + "x", c]), None,
+                   "extras-interactive-random", xicases, dcases)
 
 
 # ---------------------------------------------------------------- case files with shared string literals
@@ -1466,7 +1807,7 @@ def run(ctx):
     logging.getLogger("idpyoidc").setLevel(logging.CRITICAL)
     rng = ctx.rng
     provs = build_providers()
-    cases, rpcases, unres, dcases, icases = [], [], [], [], []
+    cases, rpcases, unres, dcases, icases, xcases, xicases = [], [], [], [], [], [], []
     single_faults(ctx, provs, rng, cases)
     presence_table(ctx, provs, rng, cases)
     lengths_and_alphabets(ctx, provs, rng, cases)
@@ -1477,11 +1818,15 @@ def run(ctx):
     transport_matrix(ctx, provs, rng, dcases)
     rp_transport_cases(ctx, provs, rng, dcases)
     transport_random(ctx, provs, rng, dcases, 400 if ctx.quick else 20000)
-    interactive_section(ctx, rng, icases, dcases)
+    interactive_section(ctx, rng, icases, dcases, xicases=xicases)
+    extras_matrix(ctx, provs, rng, xcases)
+    extras_random(ctx, provs, rng, xcases, 300 if ctx.quick else 20000)
     imp = ["Lib.Base", "Lib.PyStr", "Lib.PkceTy", "Gen.PkceTables", "Model.Pkce"]
     check_cases_shared(ctx, imp, "flow_case", "chk_flow", cases, shard=400, label="flow", diag="flow_model")
     check_cases_shared(ctx, imp, "dflow_case", "chk_dflow", dcases, shard=400, label="dflow", diag="dflow_model")
     check_cases_shared(ctx, imp, "iflow_case", "chk_iflow", icases, shard=200, label="iflow", diag="iflow_model")
+    check_cases_shared(ctx, imp, "xflow_case", "chk_xflow", xcases, shard=400, label="xflow", diag="xflow_model")
+    check_cases_shared(ctx, imp, "xiflow_case", "chk_xiflow", xicases, shard=200, label="xiflow", diag="xiflow_model")
     ctx.coq_check_cases(imp, "rp_case", "chk_rp", rpcases, shard=200, label="rp", diag="rp_model")
     ctx.coq_check_cases(imp, "pystr * bool", "chk_unreserved", unres, shard=200, label="unres")
 
@@ -1489,6 +1834,36 @@ def run(ctx):
 def replay(ctx, rp):
     """Re-run the recorded flow (or, for a broken obligation, the generator with the recorded seed)."""
     case = rp.get("case") or {}
+    imp = ["Lib.Base", "Lib.PyStr", "Lib.PkceTy", "Gen.PkceTables", "Model.Pkce"]
+    if "token_extras" in case and "delivery" in case and "provider" in case:
+        p = case["provider"]
+        if "interactive" in case:
+            iprovs, clock = interactive_section(ctx, ctx.rng, [], [], specs=[(p["methods"], p["essential"], p.get("oidc", True),
+                                                                             p.get("login", "jinja"))])
+            try:
+                xic, dc = [], []
+                out = run_xiflow(ctx, iprovs[0], case.get("pkce_essential"), case["delivery"], case["token_extras"],
+                                 case["interactive"]["how"], case.get("code_verifier"), case.get("token_code_challenge_method"),
+                                 "replay", xic, dc)
+            finally:
+                clock.uninstall()
+            ctx.notes.append("replayed interactive flow with extension parameters %r / %r: outcome %r (recorded run: %r)"
+                             % (dict(x_members(case["delivery"])), case["token_extras"], out, case.get("outcome")))
+            check_cases_shared(ctx, imp, "xiflow_case", "chk_xiflow", xic, label="replay", diag="xiflow_model")
+            ctx.coq_check_cases(imp, "dflow_case", "chk_dflow", dc, label="replay", diag="dflow_model")
+            return
+        import srv
+        prov = Prov(srv, p["methods"], p["essential"], p.get("oidc", True))
+        xc = []
+        out = run_xflow(ctx, prov, case.get("pkce_essential"), case["delivery"], case["token_extras"], case.get("code_verifier"),
+                        case.get("token_code_challenge_method"), "replay", xc)
+        r = xc[0][1]
+        ctx.notes.append("replayed flow with extension parameters %r (authorization request) / %r (token request): outcome %r, "
+                         "recorded in grant %r; the same flow without them: %r (recorded run: %r)"
+                         % (dict(x_members(case["delivery"])), case["token_extras"], out, r.get("recorded_in_grant"),
+                            r["twin_without_extras"], case.get("outcome")))
+        check_cases_shared(ctx, imp, "xflow_case", "chk_xflow", xc, label="replay", diag="xflow_model")
+        return
     if "interactive" in case and "delivery" in case and "provider" in case:
         p = case["provider"]
         iprovs, clock = interactive_section(ctx, ctx.rng, [], [], specs=[(p["methods"], p["essential"], p.get("oidc", True),
